@@ -298,6 +298,12 @@ func c17Check(l *explore.Local, _ struct{}, c c17Case) *explore.Fail {
 						ob := m.OAMBytes()
 						for range prog {
 							info := r.Step(bus)
+							var stored [160]bool // OAM bytes this instruction stores to
+							for _, a := range info.Accesses {
+								if a.Write && a.Addr >= 0xfe00 && a.Addr < 0xfea0 {
+									stored[a.Addr-0xfe00] = true
+								}
+							}
 							for k := 0; k < info.Cycles; k++ {
 								armed := lcdOn() && m.Map.Read(0xff41)&3 == 2
 								if armed {
@@ -307,9 +313,10 @@ func c17Check(l *explore.Local, _ struct{}, c c17Case) *explore.Fail {
 								m.Cycle()
 								if !armed && *ob != before {
 									// a machine cycle that began outside mode 2 (or with the LCD off): a byte may change only
-									// by a store of this program, i.e. to the value the reference has there
+									// by a store of this instruction — and, as long as no armed cycle has made the contents
+									// unpredictable, only to the value the reference stores there
 									for i := range before {
-										if ob[i] != before[i] && ob[i] != exp[i] {
+										if ob[i] != before[i] && (!stored[i] || (judged && ob[i] != exp[i])) {
 											f := explore.Failf("OAM altered in a machine cycle outside mode 2",
 												"mode %s, line %d tick %d, pointer %04x, program % x: in cycle %d of an instruction (LCD on: %v, STAT mode before the cycle not 2) OAM[%d] changed %02x -> %02x; no store put that value there",
 												c.Mode, c.Line, tick, ptr, code, k+1, lcdOn(), i, before[i], ob[i])
